@@ -251,13 +251,22 @@ func (s *scope) CreateScope(ctx context.Context) (Scope, error) {
 	return child, nil
 }
 
+// closeAndWait closes the scope on behalf of its parent scope or the provider. Unlike
+// Close it does not return while a Close that is already in progress on another
+// goroutine (for example the context watcher woken by a cancellation) is still
+// disposing the scope: the caller must not go on to its own instances before that
+func (s *scope) closeAndWait() error {
+	err := s.Close()
+	<-s.closed
+	return err
+}
+
 // Close disposes the scope and all its resources
 func (s *scope) Close() error {
 	if !atomic.CompareAndSwapInt32(&s.disposed, 0, 1) {
-		// Already closed, or being closed by another goroutine (for example the
-		// context watcher woken by the parent's cancellation): wait until that
-		// Close has finished so that callers never proceed past a half-closed scope
-		<-s.closed
+		// Already closed, or being closed right now - possibly by this very goroutine,
+		// when a Close method of one of the scope's instances closes its own scope.
+		// Whoever closes this scope on behalf of an ancestor waits (closeAndWait)
 		return nil
 	}
 	defer close(s.closed)
@@ -276,7 +285,7 @@ func (s *scope) Close() error {
 	verifYield("scope.Close:children-detached")
 
 	for _, child := range children {
-		if err := child.Close(); err != nil {
+		if err := child.closeAndWait(); err != nil {
 			errs = append(errs, fmt.Errorf("failed to close child scope: %w", err))
 		}
 	}
